@@ -46,6 +46,7 @@ type Gen struct {
 	TableNewOnly      bool // tables are only created (with tagged cell data), never edited
 	NoCellImage       bool
 	StyleEdits        bool // registered styles are also changed in place through the public structs
+	Extra             bool // also the less common calls: floating pictures, table layout, inline formulas, multi-level lists, notes on runs, TOC styles
 	BigImages         bool // now and then an image whose media part exceeds 64 KiB (written through, not buffered; large enough for anything that treats big parts differently)
 	SharedStyleIDs    bool // custom style ids come from a small pool shared by all documents of a run (same id, different definitions)
 	NoCellList        bool // no lists inside table cells (they use the process-wide numbering registry)
@@ -354,6 +355,18 @@ func (g *Gen) opTableFmt() (sim.Op, bool) {
 	}
 	t := r.Intn(g.ntables)
 	a, b := r.Range(0, g.MaxRows), r.Range(0, g.MaxCols)
+	if g.Extra && r.Chance(0.25) {
+		switch r.Intn(4) {
+		case 0:
+			return sim.Op{K: "t.layout", I: []int{t, r.Intn(5), r.Intn(2), r.Intn(2)}}, true
+		case 1:
+			return sim.Op{K: "t.pagebreak", I: []int{t, r.Intn(16)}}, true
+		case 2:
+			return sim.Op{K: "t.rowheightrange", I: []int{t, a, a + r.Intn(3), r.Range(5, 80)}, S: []sim.Str{g.str(r.Pick("auto", "atLeast", "exact"))}}, true
+		default:
+			return sim.Op{K: "t.rmcellborders", I: []int{t, a, b}}, true
+		}
+	}
 	switch r.Intn(12) {
 	case 0:
 		op := sim.Op{K: "t.cellfmt", I: []int{t, a, b}, S: []sim.Str{g.str(r.Pick("", "left", "center", "right")), g.str(r.Pick("", "top", "center", "bottom")), g.str(r.Pick("", "lrTb", "tbRl", "btLr")), g.str(r.Pick("", "FFFF00", "EEEEEE"))}}
@@ -417,6 +430,12 @@ func (g *Gen) ImageName(fmtIdx int) string {
 
 func (g *Gen) opImage() (sim.Op, bool) {
 	r := g.R
+	if g.Extra && g.nimages > 0 && r.Chance(0.3) {
+		if r.Bool() {
+			return sim.Op{K: "img.pos", I: []int{r.Intn(16), r.Intn(3)}, F: []float64{float64(r.Range(-5, 40)), float64(r.Range(-5, 40))}}, true
+		}
+		return sim.Op{K: "img.wrap", I: []int{r.Intn(16), r.Intn(4)}}, true
+	}
 	f := r.Intn(3)
 	g.nimages++
 	g.tag++
@@ -481,18 +500,36 @@ func (g *Gen) opPage() (sim.Op, bool) {
 
 func (g *Gen) opList() (sim.Op, bool) {
 	r := g.R
+	if g.Extra && r.Chance(0.2) {
+		n := r.Range(1, 4)
+		op := sim.Op{K: "mllist"}
+		for i := 0; i < n; i++ {
+			g.nparas++
+			op.S = append(op.S, g.str(g.Text()), g.str(listTypes[r.Intn(len(listTypes))]), g.str(bullets[r.Intn(len(bullets))]))
+			op.I = append(op.I, r.Range(0, 3), r.Range(0, 2))
+		}
+		return op, true
+	}
 	g.nparas++
 	return sim.Op{K: "li", S: []sim.Str{g.str(g.Text()), g.str(listTypes[r.Intn(len(listTypes))]), g.str(bullets[r.Intn(len(bullets))])}, I: []int{r.Range(0, 1), r.Range(0, 8), 0}}, true
 }
 
 func (g *Gen) opNote() (sim.Op, bool) {
 	r := g.R
+	if g.Extra && g.nparas > 0 && r.Chance(0.25) {
+		return sim.Op{K: "fnrun", I: []int{r.Intn(64)}, S: []sim.Str{g.str(g.Text())}}, true
+	}
 	g.nparas++
 	return sim.Op{K: r.Pick("fn", "en"), S: []sim.Str{g.str(g.Text()), g.str(g.Text())}}, true
 }
 
 func (g *Gen) opTOC() (sim.Op, bool) {
 	r := g.R
+	if g.Extra && r.Chance(0.25) {
+		op := sim.Op{K: "toc.style", I: []int{r.Range(0, 10)}}
+		g.format(&op)
+		return op, true
+	}
 	return sim.Op{K: r.Pick("toc.gen", "toc.update", "toc.auto"), S: []sim.Str{g.str(g.PlainText())}, I: []int{r.Range(1, 9), r.Intn(16)}}, true
 }
 
@@ -542,6 +579,10 @@ func (g *Gen) opStyle() (sim.Op, bool) {
 // OMML fragments (the documented use); otherwise arbitrary text is passed.
 func (g *Gen) opMath() (sim.Op, bool) {
 	r := g.R
+	if g.Extra && g.WellFormedMath && g.nparas > 0 && r.Chance(0.3) {
+		g.tag++
+		return sim.Op{K: "p.inlinemath", I: []int{r.Intn(64)}, S: []sim.Str{g.str(fmt.Sprintf("<m:r><m:t>y%d</m:t></m:r>", g.tag))}}, true
+	}
 	if g.WellFormedMath {
 		g.tag++
 		return sim.Op{K: "math", S: []sim.Str{g.str(fmt.Sprintf("<m:r><m:t>x%d</m:t></m:r>", g.tag))}, I: []int{r.Intn(2)}}, true
